@@ -310,8 +310,25 @@ Theorem C04_helpers_as_translated :
   (forall ixs a axis, g_oindex_seq a ixs (Z.of_nat axis) = d_oindex_seq a ixs axis) /\
   (forall a b, c04_cull_test a b = (2 * a <? b)) /\
   (forall fuel st, g_culled_steps fuel st = j_culled_steps fuel st) /\
-  c04_simplify_loop_as_modelled = true.
+  c04_simplify_loop_as_modelled = true /\ c04_iter_as_modelled = true.
 Proof.
   exact (conj g_range_to_slice_eq (conj g_oindex_seq_eq (conj g_cull_test_eq (conj g_culled_steps_eq g_skeletons)))).
 Qed.
 Print Assumptions C04_helpers_as_translated.
+
+(* len(indexer) and iteration (for index in range(len(self)): yield self[index]): the first advertised dimension and,
+   in order, exactly the rows transform(array[stage 1])[k] of the spec data set; both raise on a 0-d data set or a
+   rejected first stage.  Any nesting depth; guard = F20 on the first-stage slices only (an integer index cannot hit it) *)
+Theorem C04_iter_partial : forall i, d_ind_ok i ->
+  match d_spec_dataset i with
+  | Some a =>
+      match d_shape a with
+      | n :: _ => d_len i = Some n /\
+                  exists rows, d_iter i = Some rows /\ List.length rows = Z.to_nat n /\
+                    forall k, (k < Z.to_nat n)%nat -> d_oeqv (nth k rows None) (d_oindex a [DInt (Z.of_nat k)])
+      | [] => d_len i = None /\ d_iter i = None
+      end
+  | None => d_len i = None /\ d_iter i = None
+  end.
+Proof. exact d_iter_spec. Qed.
+Print Assumptions C04_iter_partial.
